@@ -35,6 +35,10 @@ struct AsyncClientInner {
     /// or a write failed): the stream may hold a torn frame, so nothing more
     /// is ever written on this connection.
     write_broken: std::sync::atomic::AtomicBool,
+    /// Wakes a request write that is stalled on the socket (peer not reading)
+    /// when the response loop fails the connection, so the writer mutex is
+    /// released and `fail_all_pending` never waits behind a blocked writer.
+    failed: tokio::sync::Notify,
 }
 
 /// Marks the connection unusable unless the frame write it guards completes.
@@ -153,6 +157,7 @@ impl AsyncClient {
             next_id: AtomicU64::new(1),
             shutdown: StdMutex::new(Some(shutdown_tx)),
             write_broken: std::sync::atomic::AtomicBool::new(false),
+            failed: tokio::sync::Notify::new(),
         });
 
         spawn_response_loop(
@@ -707,6 +712,11 @@ impl AsyncClient {
         #[cfg(feature = "verif-hooks")]
         crate::verif_hooks::hit("aclient.before_write");
         let mut writer = self.inner.writer.lock().await;
+        // Register for the failure signal before testing the flag, so a
+        // failure landing in between is not missed.
+        let failed = self.inner.failed.notified();
+        tokio::pin!(failed);
+        failed.as_mut().enable();
         if self.inner.write_broken.load(Ordering::Acquire) {
             return Err(torn_write_error(msg.header.id));
         }
@@ -714,8 +724,18 @@ impl AsyncClient {
             inner: &self.inner,
             completed: false,
         };
-        write_message_async(&mut *writer, msg).await?;
-        writer.flush().await?;
+        tokio::select! {
+            biased;
+            // The response loop declared the connection dead while this write
+            // was stalled: give up (the guard marks the torn frame) instead of
+            // holding the writer mutex for as long as the peer keeps the socket.
+            _ = &mut failed => return Err(torn_write_error(msg.header.id)),
+            written = async {
+                write_message_async(&mut *writer, msg).await?;
+                writer.flush().await?;
+                Ok::<(), RepeError>(())
+            } => written?,
+        }
         guard.completed = true;
         Ok(())
     }
@@ -933,10 +953,12 @@ async fn fail_all_pending(inner: &std::sync::Weak<AsyncClientInner>, err: RepeEr
         return;
     };
 
-    {
-        let mut writer = inner_ref.writer.lock().await;
-        let _ = writer.shutdown().await;
-    }
+    // Refuse further request writes and wake one that is stalled on the socket
+    // (peer not reading): it holds the writer mutex, and waiting for it here
+    // would leave every call in flight hanging for as long as the peer keeps
+    // the connection open.
+    inner_ref.write_broken.store(true, Ordering::Release);
+    inner_ref.failed.notify_waiters();
     #[cfg(feature = "verif-hooks")]
     crate::verif_hooks::hit("aclient.fail.after_shutdown");
 
@@ -948,6 +970,12 @@ async fn fail_all_pending(inner: &std::sync::Weak<AsyncClientInner>, err: RepeEr
     for (request_id, sender) in waiters {
         let _ = sender.send(Err(clone_fatal_error_for_waiter(&err, request_id)));
     }
+
+    // Close the write side last: with writes already refused nobody depends on
+    // it any more, and flushing/shutting a socket whose peer has stopped
+    // reading can take as long as the peer keeps the connection open.
+    let mut writer = inner_ref.writer.lock().await;
+    let _ = writer.shutdown().await;
 }
 
 fn clone_fatal_error_for_waiter(err: &RepeError, request_id: u64) -> RepeError {
